@@ -58,19 +58,61 @@ fn report<C: Serialize>(prop: &str, variant: &str, case: &C, msg: &str) -> ! {
     std::process::abort();
 }
 
+/// The case now running, for the hang watchdog: (wall start, process CPU seconds at start, property, variant, case JSON)
+static WATCH: std::sync::Mutex<Option<(std::time::Instant, f64, String, &'static str, String)>> = std::sync::Mutex::new(None);
+
+fn cpu_seconds() -> f64 {
+    let mut ts = libc::timespec { tv_sec: 0, tv_nsec: 0 };
+    unsafe { libc::clock_gettime(libc::CLOCK_PROCESS_CPUTIME_ID, &mut ts) };
+    ts.tv_sec as f64 + ts.tv_nsec as f64 * 1e-9
+}
+
+/// Run one case under the watchdog. Cases take micro- to milliseconds. The watchdog decides on the CPU time the
+/// process burnt since the case began (independent of machine load): more than BVERIF_FUZZ_HANG_CPU_S (150) CPU-seconds
+/// is reported — as a C15 violation `[hang]` (C15 forbids unbounded loops) with a replay file, for the other
+/// properties as inconclusive (exit code 3). A case that merely sits there (no CPU) for 1000 s is inconclusive too.
+fn watched<C: Serialize, R>(prop: &str, variant: &'static str, c: &C, f: impl FnOnce() -> R) -> R {
+    *WATCH.lock().unwrap() = Some((std::time::Instant::now(), cpu_seconds(), prop.to_string(), variant, serde_json::to_string(c).unwrap_or_default()));
+    let r = f();
+    *WATCH.lock().unwrap() = None;
+    r
+}
+
+fn start_watchdog() {
+    let cpu_limit: f64 = std::env::var("BVERIF_FUZZ_HANG_CPU_S").ok().and_then(|v| v.parse().ok()).unwrap_or(150.0);
+    std::thread::spawn(move || loop {
+        std::thread::sleep(std::time::Duration::from_millis(1000));
+        let g = WATCH.lock().unwrap();
+        if let Some((t0, c0, prop, variant, case)) = g.as_ref() {
+            let cpu = cpu_seconds() - c0;
+            let wall = t0.elapsed().as_secs_f64();
+            if cpu > cpu_limit && prop == "C15" {
+                let case: serde_json::Value = serde_json::from_str(case).unwrap_or(serde_json::Value::Null);
+                let msg = format!("[hang] the case has used {:.0} s of CPU time ({:.0} s wall) without finishing; cases of this kind take milliseconds: unbounded loop", cpu, wall);
+                report(prop, variant, &case, &msg);
+            }
+            if cpu > cpu_limit || wall > 1000.0 {
+                eprintln!("INCONCLUSIVE-HANG property={} variant={} cpu={:.0}s wall={:.0}s case={}", prop, variant, cpu, wall, case);
+                unsafe { libc::_exit(3) };
+            }
+        }
+    });
+}
+
 pub fn run(prop: &str, data: &[u8]) {
     static ONCE: std::sync::Once = std::sync::Once::new();
     ONCE.call_once(|| {
         // replace libfuzzer-sys' abort-on-panic hook: the checks catch panics themselves and classify them
         install_panic_hook();
         std::env::set_var("BVERIF_NO_L2", "1");
+        start_watchdog();
     });
     let strict = std::env::var("BVERIF_FUZZ_STRICT").is_ok();
     let mut rec = CaseRec::default();
     match prop {
         "C09" => {
             let Some(c) = decode_c09(data) else { return };
-            if let Err(f) = guarded(|| crate::props::c09::run_case(&c, &mut rec)) {
+            if let Err(f) = watched(prop, "rand", &c, || guarded(|| crate::props::c09::run_case(&c, &mut rec))) {
                 report(prop, "rand", &c, &f.message);
             }
         }
@@ -81,7 +123,7 @@ pub fn run(prop: &str, data: &[u8]) {
                 0 => {
                     // raw bytes presented as an archive
                     let c = crate::props::c15::RawCase { base: None, bytes: body.to_vec(), flip: None, trunc: None, seed: None };
-                    if let Err(f) = guarded(|| crate::props::c15::run_raw_inner(&c, &mut rec, strict)) {
+                    if let Err(f) = watched(prop, "raw", &c, || guarded(|| crate::props::c15::run_raw_inner(&c, &mut rec, strict))) {
                         report(prop, "raw", &c, &f.message);
                     }
                 }
@@ -98,7 +140,7 @@ pub fn run(prop: &str, data: &[u8]) {
                     let mut bytes = crate::refs::format::build_header_raw(mode == 2 && dl % 2 == 1, dict.len() as u64, dict, crate::refs::format::header_len_for(dict.len()) as u64);
                     bytes.extend_from_slice(rest);
                     let c = crate::props::c15::RawCase { base: None, bytes, flip: None, trunc: None, seed: if mode == 2 { Some(rest[..rest.len().min(1500)].to_vec()) } else { None } };
-                    if let Err(f) = guarded(|| crate::props::c15::run_raw_inner(&c, &mut rec, strict)) {
+                    if let Err(f) = watched(prop, "raw", &c, || guarded(|| crate::props::c15::run_raw_inner(&c, &mut rec, strict))) {
                         report(prop, "raw", &c, &f.message);
                     }
                 }
@@ -106,7 +148,7 @@ pub fn run(prop: &str, data: &[u8]) {
                     let Some(mut c) = from_bytes(&crate::props::c15::case_strategy(), body) else { return };
                     c.l2 = false;
                     c.transport = crate::props::c15::Transport::Local;
-                    if let Err(f) = guarded(|| crate::props::c15::run_case_inner(&c, &mut rec, strict)) {
+                    if let Err(f) = watched(prop, "struct", &c, || guarded(|| crate::props::c15::run_case_inner(&c, &mut rec, strict))) {
                         report(prop, "struct", &c, &f.message);
                     }
                 }
@@ -116,7 +158,7 @@ pub fn run(prop: &str, data: &[u8]) {
             let Some(mut c) = from_bytes(&crate::props::c17::case_strategy(), data) else { return };
             c.l2 = false;
             c.http = false;
-            if let Err(f) = guarded(|| crate::props::c17::run_case(&c, &mut rec)) {
+            if let Err(f) = watched(prop, "enc", &c, || guarded(|| crate::props::c17::run_case(&c, &mut rec))) {
                 report(prop, "enc", &c, &f.message);
             }
         }
